@@ -4,6 +4,7 @@ import WP.Props.C07
 import WP.Props.C08
 import WP.Model.Hist
 import WP.Props.Solvency.Final
+import WP.Props.Solvency.Ext
 /-
   Property C01 — pool solvency: every outstanding claim on a vault can always be paid.
 
@@ -167,6 +168,15 @@ theorem no_free_lunch (p : PoolD) (now : Nat) (af : Option AfInfo) (ops swaps : 
     ¬ (s'.vaultA ≤ s.vaultA ∧ s'.vaultB ≤ s.vaultB ∧ (s'.vaultA < s.vaultA ∨ s'.vaultB < s.vaultB)) :=
   Solv.no_free_lunch swaps _ (reachable p now af ops f hops) hsw
 
+/-- **C01 (I) for histories that also re-range empty positions and reposition liquidity**
+    (`reset_position_range`, `reposition_liquidity_v2` = withdraw all ; re-range ; deposit): the invariant —
+    and with it `payable`, `funds_suffice` — holds at every state such a history reaches -/
+theorem solvent_ext (p : PoolD) (now : Nat) (af : Option AfInfo) (ops : List ExtOp) (f : Fresh p af)
+    (hops : ∀ op ∈ ops, ExtOK p.ts op) (tokA : Bool) :
+    let s := ops.foldl extApply { pool := p, now := now, af := af }
+    pfOf tokA s + sumN (fun q => owedN tokA q + creditNow tokA s q + withdrawAll tokA s q) s.positions ≤ vaultOf tokA s :=
+  payable tokA _ (reach_solvent_ext ops _ (fresh_inv p now af f) hops)
+
 /-! ### non-vacuity: a concrete history meets every hypothesis, holds claims, and the theorems bite -/
 
 example : Fresh Reach.exPool none :=
@@ -178,6 +188,14 @@ example : Fresh Reach.exPool none :=
 example : let s0 := after Reach.exPool 10 none (Reach.exOps.take 4)
           let s := after Reach.exPool 10 none Reach.exOps
           (0 < s.pool.pfA ∧ 0 < s.vaultA ∧ 0 < s.vaultB ∧ s0.vaultA < s.vaultA ∧ s.positions.length = 2) = True := by
+  decide +kernel
+
+-- a reposition really executes on the example history: position 2 (range [−6400, −64), in range after the
+-- first swap) is moved to [−12800, −6400) with new liquidity, and the result still holds liquidity
+example : let s := after Reach.exPool 10 none (Reach.exOps.take 5)
+          (match histRepo s 2 (-12800) (-6400) 50000 with
+           | .ok s' => decide (s'.pool.liq < s.pool.liq) && (posGet s'.positions 2).map (fun q => (q.lower, q.upper, q.liq)) == some (-12800, -6400, 50000)
+           | .error _ => false) = true := by
   decide +kernel
 
 end WP.C01
